@@ -39,7 +39,7 @@ func init() {
 	registry["C14"] = func() *Property {
 		return &Property{
 			ID:          "C14",
-			Explanation: "A typestate of strings, decided statically. A styled text is in normal form when it consists of plain characters and line feeds with no attribute active, and of units `openers, one character, reset`; in such a text every character carries exactly the attributes of its own unit and nothing is active at a line feed or at the end, and concatenating, repeating, splitting or cutting normal-form texts at line feeds keeps the form. Decided: (R1) ansi.Apply, the only emitter of escape sequences, emits for every character other than a line feed exactly one opener carrying its style parameter, the character's own previous openers, the character and a reset, and emits line feeds bare: the style is added to each character's own unit and to nothing else; (R2) every function of packages ansi and style that returns a string returns normal form when its text parameters are in normal form: an automaton (closed, opened, lettered) is run over what each returned value is concatenated from — lexed constants, pieces of a match of ansi.expand (match[0] a whole unit, match[1] its openers, match[2] its character, a line feed only where the path knows it is none), parameters, slices of matches, results of the functions themselves and of form-preserving library calls (Repeat, Join/Split at line feeds, cuts at the index of a line feed, trimming of blanks) — with loop accumulators treated coinductively; (R3) outside package ansi no instruction looks inside a string that can carry styling (forward value flow from every ansi.Apply result to string slicing, indexing, conversion to runes or bytes, ranging, and character-editing library calls); (R4) escape bytes occur only in constants of package ansi. Together: every string the styling layer hands out is in normal form by induction over the calls. (R5) every style handed to ansi.Apply, directly or through the functions of the style layer that pass a parameter on as the start of it, starts with a constant SGR code that is neither empty nor the reset code (ESC[m and ESC[0m switch every attribute off). (R6 = C13.R0) a match of ansi.expand holds exactly one visible character, so a line feed is a match of its own and is never styled. (R7 = C19.R2) the configured colours are outputs of hexToAnsi. (R8) attributes that are visible on blanks — underline, strike-through, background — are never applied, inside package style, to text that already holds the layout blanks of ansi.Indent / ansi.Pad. NOT decided: the terminal's interpretation of SGR parameters, that the style parameter is a valid SGR parameter (C01.R3 decides that it is built from constants and validated colours), and content preservation by the layout functions (C13).",
+			Explanation: "A typestate of strings, decided statically. A styled text is in normal form when it consists of plain characters and line feeds with no attribute active, and of units `openers, one character, reset`; in such a text every character carries exactly the attributes of its own unit and nothing is active at a line feed or at the end, and concatenating, repeating, splitting or cutting normal-form texts at line feeds keeps the form. Decided: (R1) ansi.Apply, the only emitter of escape sequences, emits for every character other than a line feed exactly one opener carrying its style parameter, the character's own previous openers, the character and a reset, and emits line feeds bare: the style is added to each character's own unit and to nothing else; (R2) every function of packages ansi and style that returns a string returns normal form when its text parameters are in normal form: an automaton (closed, opened, lettered) is run over what each returned value is concatenated from — lexed constants, pieces of a match of ansi.expand (match[0] a whole unit, match[1] its openers, match[2] its character, a line feed only where the path knows it is none), parameters, slices of matches, results of the functions themselves and of form-preserving library calls (Repeat, Join/Split at line feeds, cuts at the index of a line feed, trimming of blanks) — with loop accumulators treated coinductively; (R3) outside package ansi no instruction looks inside a string that can carry styling (forward value flow from every ansi.Apply result to string slicing, indexing, conversion to runes or bytes, ranging, and character-editing library calls); (R4) escape bytes occur only in constants of package ansi. Together: every string the styling layer hands out is in normal form by induction over the calls. (R5) every style handed to ansi.Apply, directly or through the functions of the style layer that pass a parameter on as the start of it, starts with a constant SGR code that is neither empty nor the reset code (ESC[m and ESC[0m switch every attribute off). (R6 = C13.R0) a match of ansi.expand holds exactly one visible character, so a line feed is a match of its own and is never styled. (R7 = C19.R2) the configured colours are outputs of hexToAnsi. (R8) attributes that are visible on blanks — underline, strike-through, background — are never applied, inside package style, to text that already holds the layout blanks of ansi.Indent / ansi.Pad. (R9) packages style and ansi read no environment, clock or locale. (R10) ansi.Apply tells only the line feed apart and does not look at the style it applies. NOT decided: the terminal's interpretation of SGR parameters, that the style parameter is a valid SGR parameter (C01.R3 decides that it is built from constants and validated colours), and content preservation by the layout functions (C13).",
 			Assumptions: []string{"regexp semantics of ansi.expand's pattern (checked in C13.R0): a match is openers, one character, an optional reset", "string parameters of the ansi and style functions are texts in normal form or plain texts (by induction: R3 shows nothing else can be made outside)", "a terminal applies ESC[0m as 'all attributes off'"},
 			Rules: []Rule{
 				{ID: "C14.R1", Title: "ansi.Apply adds its style to each character's own unit and closes it", Floor: 3, Run: c14R1},
@@ -48,6 +48,8 @@ func init() {
 				{ID: "C14.R4", Title: "escape bytes occur in constants of package ansi only", Floor: 1, Run: c14R4},
 				{ID: "C14.R5", Title: "every style handed to ansi.Apply starts with a constant, non-resetting SGR code", Floor: 6, Run: c14R5},
 				{ID: "C14.R6", Title: "a match of ansi.expand holds exactly one visible character, so a line feed is always a match of its own and is never styled (same instances as C13.R0)", Floor: 2, Run: c13R0},
+				{ID: "C14.R10", Title: "ansi.Apply gives every visible character the style it is called with: the line feed is the only character it tells apart, and it does not look at what the style is", Floor: 1, Run: c14R10},
+				{ID: "C14.R9", Title: "the attributes a text is shown with depend on the style calls alone: packages style and ansi read no environment, clock or locale", Floor: 0, Run: c14R9},
 				{ID: "C14.R8", Title: "attributes that show on blanks (underline, strike-through, background) are applied to text, not to the blanks the style layer adds for layout: in package style nothing that comes out of ansi.Indent or ansi.Pad is handed to Underline, Strikethrough, Link or a background colour", Floor: 2, Run: c14R8},
 				{ID: "C14.R7", Title: "the configured colours that end up behind ESC[38;2; are outputs of hexToAnsi: digits and semicolons (same instances as C19.R2)", Floor: 7, Run: c19R2},
 			},
@@ -1490,5 +1492,97 @@ func c14R8(c *Ctx) {
 			c.check(where == "", fname+"/decorates:"+sc.Name(), P.InstrPos(in), fname, "the decorated text holds no layout blanks of the style layer",
 				"the text handed to "+sc.Name()+" contains the blanks added by the layout call at "+where+": indent or padding is displayed underlined / struck through / with a background, attributes that were meant for the text")
 		})
+	}
+}
+
+// envReads: uses of the process environment, the clock or the local time zone
+// in the functions of the given packages.
+func envReads(P *Program, pkgs ...string) []ssa.Instruction {
+	var out []ssa.Instruction
+	for _, fn := range P.FuncsIn(pkgs...) {
+		eachInstr(fn, func(_ *ssa.BasicBlock, _ int, in ssa.Instruction) {
+			if cc := callOf(in); cc != nil {
+				if f := calleeObj(cc); f != nil && f.Pkg() != nil {
+					switch f.Pkg().Path() + "." + f.Name() {
+					case "os.Getenv", "os.LookupEnv", "os.Environ", "os.ExpandEnv", "os.Expand", "os.Getwd", "os.Hostname", "os.UserHomeDir",
+						"time.Now", "time.Since", "time.Until", "time.LoadLocation", "time.ParseInLocation",
+						"runtime.GOMAXPROCS", "runtime.NumCPU", "math/rand.Int", "math/rand.Intn":
+						out = append(out, in)
+					}
+				}
+			}
+			if u, ok := in.(*ssa.UnOp); ok && u.Op == token.MUL {
+				if g, ok := u.X.(*ssa.Global); ok && g.Pkg != nil && g.Pkg.Pkg.Path() == "time" && g.Name() == "Local" {
+					out = append(out, in)
+				}
+			}
+		})
+	}
+	return out
+}
+
+func envRule(c *Ctx, what string, pkgs ...string) {
+	P := c.P
+	reads := envReads(P, pkgs...)
+	for _, in := range reads {
+		fn := in.Parent()
+		c.bad(FuncName(fn)+"/environment", P.InstrPos(in), FuncName(fn), what+" now depends on the process environment, the clock or the local time zone ("+describeInstr(P, in)+"): the same input no longer gives the same result on another machine or at another time")
+	}
+	if len(reads) == 0 {
+		c.ok(strings.Join(pkgs, "+")+"/environment", pkgs[0], pkgs[0], "no function of "+strings.Join(pkgs, ", ")+" reads the environment, the clock or the local time zone")
+	}
+}
+
+func c14R9(c *Ctx) { envRule(c, "how a text is styled", "servitor/style", "servitor/ansi") }
+
+// c14R10: every style function ends in ansi.Apply(text, style). For "every
+// visible character carries the attributes of all style functions wrapped
+// around it", Apply must not pick characters: in its loop over the matches the
+// character (match[2]) is compared with "\n" and nothing else, and the style
+// parameter is only ever concatenated — never compared, searched or measured
+// (seed C14-2r13 skipped blanks when the style is a foreground colour; a
+// blank under Underline(Color(..)) then shows its underline in another colour).
+func c14R10(c *Ctx) {
+	P := c.P
+	fn := P.Func("servitor/ansi", "Apply")
+	fname := FuncName(fn)
+	style := fn.Params[1]
+	n := 0
+	eachInstr(fn, func(_ *ssa.BasicBlock, _ int, in ssa.Instruction) {
+		// tests of the character
+		if cmp, ok := in.(*ssa.BinOp); ok && (cmp.Op == token.EQL || cmp.Op == token.NEQ) && isStringType(cmp.X.Type()) {
+			for _, side := range [][2]ssa.Value{{cmp.X, cmp.Y}, {cmp.Y, cmp.X}} {
+				k, isK := constString(side[1])
+				if !isK {
+					continue
+				}
+				if unwrapLoad(side[0]) == ssa.Value(style) {
+					n++
+					c.bad(fname+"/style-inspected", P.InstrPos(in), fname, "Apply compares the style it is given with a constant: some styles are then not applied to some characters")
+					continue
+				}
+				n++
+				c.check(k == "\n", fname+"/character-test", P.InstrPos(in), fname, "the line feed is told apart (it gets no escape sequences)",
+					fmt.Sprintf("Apply tells the character %q apart from the others: it does not get the style the text is wrapped in, so what is displayed at that place are not the attributes of all style functions around it", k))
+			}
+		}
+		// the style parameter is not examined
+		if cc := callOf(in); cc != nil {
+			for _, a := range cc.Args {
+				if unwrapLoad(a) == ssa.Value(style) {
+					name := ""
+					if f := calleeObj(cc); f != nil {
+						name = objFullName(f)
+					} else if b, ok := cc.Value.(*ssa.Builtin); ok {
+						name = b.Name()
+					}
+					n++
+					c.bad(fname+"/style-inspected", P.InstrPos(in), fname, "Apply hands the style it is given to "+name+": what a character gets then depends on which style it is, and some styles are not applied to some characters")
+				}
+			}
+		}
+	})
+	if n == 0 {
+		c.bad(fname+"/character-test", P.Pos(fn.Pos()), fname, "Apply no longer tells the line feed apart")
 	}
 }
